@@ -207,3 +207,100 @@ func runC17DirStart(t *Toks) string {
 		return "SPECFAIL Start did not return within 3 s on a port that is already in use (it waits for Ready, which never becomes true)"
 	}
 }
+
+// addrv: validateAddrPort itself, against its model (coq/Addr.v).  The generator evaluates
+// the four library questions the function asks (on the substrings it asks them about) and
+// puts the answers into the case line for the model; the runner calls the real function.
+func init() {
+	runners["addrv"] = runAddrV
+	generators["addrv"] = genAddrV
+}
+
+func addrOracleBits(addr string) [4]bool {
+	i := strings.LastIndexByte(addr, ':')
+	var bits [4]bool
+	if i < 0 {
+		return bits
+	}
+	host := addr[:i]
+	if _, err := netip.ParseAddr(strings.Trim(host, "[]")); err == nil {
+		bits[0] = true
+	}
+	if host != "" {
+		ctx, cancel := context.WithTimeout(context.Background(), time.Second)
+		hs, _ := net.DefaultResolver.LookupHost(ctx, host)
+		cancel()
+		bits[1] = len(hs) > 0
+	}
+	if _, err := netip.ParseAddr(host); err == nil {
+		bits[2] = true
+	}
+	bits[3] = net.ParseIP(host) != nil
+	return bits
+}
+
+func genAddrV(g *Gen) {
+	r := g.rng
+	emit := func(a string) {
+		b := addrOracleBits(a)
+		g.emit("addrv", hx([]byte(a)), b01(b[0]), b01(b[1]), b01(b[2]), b01(b[3]))
+	}
+	seeds := []string{"127.0.0.1:389", "localhost:389", ":389", "[::1]:389", "::1:389", "[[::1]]:389", "[::1]]:389", "[]::1]:389",
+		"[::1:389", "[::1]", "[::1]:", "127.0.0.1", "", ":", "::", "[", "]", "[]:1", "[fe80::1%lo]:389", "[127.0.0.1]:389",
+		"1.2.3:389", "256.1.1.1:389", "host name:389", "[::ffff:1.2.3.4]:636", "a:b:c", "[a]:1", "[:]:1", "x]:1", "[x:1"}
+	for _, s := range seeds {
+		emit(s)
+	}
+	// every string of length <= 4 over the alphabet that decides the function's branches
+	alpha := []byte{'[', ']', ':', '1', 'a'}
+	var rec func(prefix []byte, n int)
+	rec = func(prefix []byte, n int) {
+		emit(string(prefix))
+		if n == 0 {
+			return
+		}
+		for _, c := range alpha {
+			rec(append(append([]byte{}, prefix...), c), n-1)
+		}
+	}
+	depth := 4
+	if g.tier == "thorough" {
+		depth = 6
+	}
+	rec(nil, depth)
+	// random edits of the seeds
+	for i := 0; i < g.n; i++ {
+		b := []byte(seeds[r.Intn(len(seeds))])
+		for k := 1 + r.Intn(3); k > 0; k-- {
+			switch r.Intn(3) {
+			case 0:
+				if len(b) > 0 {
+					j := r.Intn(len(b))
+					b = append(b[:j:j], b[j+1:]...)
+				}
+			case 1:
+				j := r.Intn(len(b) + 1)
+				b = append(b[:j:j], append([]byte{"[]:1a.%"[r.Intn(7)]}, b[j:]...)...)
+			default:
+				if len(b) > 0 {
+					b[r.Intn(len(b))] = "[]:1a.%"[r.Intn(7)]
+				}
+			}
+		}
+		emit(string(b))
+	}
+}
+
+func runAddrV(t *Toks) (out string) {
+	a := string(unhx(t.Next()))
+	defer func() {
+		if r := recover(); r != nil {
+			out = "PANIC"
+		}
+	}()
+	s, err := gldap.VerifValidateAddrPort(a)
+	if err != nil {
+		return "ERR"
+	}
+	return "OK " + hx([]byte(s))
+}
